@@ -41,7 +41,71 @@ def main():
             fastparquet.write(os.path.join(tmp, "kv.parquet"), df, custom_metadata={"k": "\u00e9" * c["n"]})
             pf = fastparquet.ParquetFile(os.path.join(tmp, "kv.parquet"))
             return ["ok", "written", len(pf.key_value_metadata.get("k", ""))]
+        if fn == "mt_read":
+            return mt_read(c, tmp)
         return ["unknown-fn", fn]
+
+    def mt_read(c, tmp):
+        """Concurrent well-formed use: ONE ParquetFile handle, several threads, each reading its own column(s) over and
+        over with a very short thread switch interval.  Every page decoded by the native code must be the page the
+        column's metadata names: the process must survive without a sanitizer report and every frame must equal the
+        data written (a decoder that was handed the bytes of another column chunk shows as one of the two)."""
+        import threading
+        import pandas as pd
+        n, per_rg = c["n"], c["per_rg"]
+        rs = np.random.RandomState(c["seed"])
+        df = pd.DataFrame({
+            "i": np.full(n, 0x1111111111111111, dtype="int64"),
+            "s": np.array(["row %05d" % k for k in range(n)], dtype=object),
+            "f": np.where(np.arange(n) % 7 == 3, np.nan, rs.rand(n)),
+            "c": pd.Categorical.from_codes(rs.randint(0, 40, n), categories=["cat%02d" % k for k in range(40)]),
+            "b": np.array([bytes([k % 251]) * (k % 9) for k in range(n)], dtype=object),
+            "j": rs.randint(-5, 5, n).astype("int32"),
+        })
+        fnm = os.path.join(tmp, "mt.parquet")
+        kw = dict(row_group_offsets=per_rg, object_encoding={"s": "utf8", "b": "bytes"}, compression=c.get("compression"))
+        if c["scheme"] != "simple":
+            os.makedirs(fnm)
+            kw["file_scheme"] = c["scheme"]
+        old = sys.getswitchinterval()
+        from fastparquet import writer
+        dpv0 = writer.DATAPAGE_VERSION
+        writer.DATAPAGE_VERSION = c.get("dpv", 1)
+        try:
+            fastparquet.write(fnm, df, **kw)
+        finally:
+            writer.DATAPAGE_VERSION = dpv0
+        pf = fastparquet.ParquetFile(fnm)
+        problems = []
+
+        def same(a, b):
+            if a.dtype.kind == "f":
+                return bool(((a == b) | ((a != a) & (b != b))).all())
+            return bool((a == b).all())
+
+        def reader(cols):
+            for _ in range(c["rounds"]):
+                try:
+                    got = pf.to_pandas(columns=list(cols))
+                    for col in cols:
+                        g = got[col].astype(object).to_numpy() if col == "c" else got[col].to_numpy()
+                        w = df[col].astype(object).to_numpy() if col == "c" else df[col].to_numpy()
+                        if len(g) != n or not same(g, w):
+                            problems.append("column %r: data read back differs from data written" % col)
+                except Exception as e:      # noqa
+                    problems.append("column %r: %s: %s" % (cols, type(e).__name__, str(e)[:120]))
+        sys.setswitchinterval(c["switch"])
+        try:
+            threads = [threading.Thread(target=reader, args=(cols,)) for cols in c["threads"]]
+            for t in threads:
+                t.start()
+            for t in threads:
+                t.join()
+        finally:
+            sys.setswitchinterval(old)
+        if problems:
+            return ["ok", "bad-reads", "%d bad reads, first: %s" % (len(problems), problems[0][:200])]
+        return ["ok", "clean", "%d threads x %d rounds x %d row groups" % (len(c["threads"]), c["rounds"], len(pf.row_groups))]
 
     cases = json.load(open(cases_p))
     with open(out_p, "a") as out:
